@@ -10,6 +10,7 @@ from typing import (
     ClassVar,
     Dict,
     List,
+    Literal,
     Optional,
     Set,
     Tuple,
@@ -265,6 +266,15 @@ else:
             args = get_args(expected)
             non_none_args = [arg for arg in args if arg is not type(None)]
 
+            # An exact type match wins over coercion (Pydantic's smart mode):
+            # the string "123" stays a string in Union[int, str]
+            for union_type in non_none_args:
+                if (
+                    union_type in (str, int, float, bool)
+                    and type(value) is union_type
+                ):
+                    return value
+
             # Try each type in the union
             validation_errors = []
             for union_type in non_none_args:
@@ -281,6 +291,17 @@ else:
                 f"value does not match any type in Union[{', '.join(type_names)}]",
                 current_path,
                 "union_mismatch",
+            )
+
+        # Literal values are checked, not passed through: a discriminator such
+        # as type: Literal["image"] must reject "audio"
+        if origin is Literal:
+            if value in get_args(expected) and any(
+                type(value) is type(arg) for arg in get_args(expected) if arg == value
+            ):
+                return value
+            raise ValidationError(
+                f"value is not one of {get_args(expected)}", current_path, "literal_error"
             )
 
         # Simple type validation
